@@ -46,6 +46,9 @@ class Interp:
         self.cp2 = SecondProcessor()    # coroutines can be handed over
         self.cp3 = d.CoroutineProcessor()   # an unrelated, empty processor
         self.owner = {}
+        self.dropped = set()
+        self.deferred = None
+        self.closed = False
         self.norelease = set()
         self.min_release = {}
         self.world = None
@@ -108,14 +111,41 @@ class Interp:
     # ---- generator bodies
     def body(self, c):
         spec = self.cfg['coros'][c]
-        for k, y in enumerate(spec['yields']):
-            self.co_step(c, k)
-            yield dec(y)
+        try:
+            for k, y in enumerate(spec['yields']):
+                self.co_step(c, k)
+                yield dec(y)
+        except GeneratorExit:
+            # clean-up code of a coroutine that goes away (only the
+            # processor referred to it): it may kill / start others
+            if spec.get('fin') and c in self.dropped and not self.closed:
+                self.run_fin(c, spec['fin'])
+            raise
         self.co_step(c, len(spec['yields']))
         r = spec.get('ret')
         if r == 'obj':
             r = self.ret_obj(c)
         return r
+
+    def run_fin(self, c, script):
+        self.trace.add('fin', c, self.in_frame)
+        self.probes['cleanup_code_ran_at_drop'] += 1
+        self.faults['kill_or_start_from_cleanup_code'] += 1
+        if self.in_frame:
+            self.probes['cleanup_code_ran_inside_a_frame'] += 1
+        try:
+            self.settle_all()           # steps that completed before this
+            for op in script:
+                self.exec_op(op)
+        except Violation as v:          # finalisers cannot propagate
+            v.__traceback__ = None
+            if self.deferred is None:
+                self.deferred = v
+        except BaseException as e:
+            if self.deferred is None:
+                self.deferred = Violation(
+                    'C09', 'process_raised', f'clean-up code of c{c}: '
+                    f'{type(e).__name__}: {e}')
 
     def ret_obj(self, c):
         o = ['ret', c]
@@ -188,7 +218,7 @@ class Interp:
             self.norelease.add(c)
         else:
             self.min_release[c] = self.frame_no + 1
-        self.op_kill(['kill', c])
+        self.op_kill(['kill', c, 'keep'])
         self.owner[c] = 1 if self.owner.get(c) == 2 else 2
         self.op_start(['start', c])
         self.probes['handed_to_other_processor'] += 1
@@ -208,9 +238,17 @@ class Interp:
     def exec_op(self, op):
         self.stats['ops'] += 1
         self.trace.add('op', len(self.costack), *op)
+        if (len(op) > 1 and type(op[1]) is int and op[1] in self.dropped
+                and op[0] not in ('frame', 'aux', 'bad')):
+            self.stats['skipped'] += 1  # the program let go of that one
+            return 'skip'
         r = getattr(self, 'op_' + op[0])(op)
         if r == 'skip':
             self.stats['skipped'] += 1
+        if self.deferred is not None and not self.costack \
+                and not self.in_frame:
+            v, self.deferred = self.deferred, None
+            raise v
         return r
 
     def call(self, thunk, what):
@@ -385,6 +423,17 @@ class Interp:
         if self.in_frame and self.expect.get(c) in (1, 'le1'):
             self.expect[c] = 0 if c not in self.done_this_frame else \
                 self.expect[c]
+        if (self.cfg['coros'][c].get('fin') and c not in self.costack
+                and 'keep' not in op):
+            # the program lets go of it: from now on only the processor
+            # refers to the generator (its clean-up code runs when the
+            # processor drops it)
+            self.dropped.add(c)
+            self.norelease.add(c)
+            self.release_due.pop(c, None)
+            self.promise.pop(c, None)
+            p = r = g = None
+            self.gens[c] = None
 
     def op_pkill(self, op):
         return self.op_kill(op, via_promise=True)
@@ -635,8 +684,10 @@ def execute(scenario, prop, tolerate=frozenset()):
         violation['op'] = idx
     finally:
         it.desper.default_loop = it.saved_loop
+        it.closed = True
         for g in it.gens.values():
-            g.close()
+            if g is not None:
+                g.close()
     it.stats['steps'] = kernel.StepBudget.total - s0
     return {'violation': violation, 'digest': it.trace.digest(),
             'nontrivial': it.nontrivial(), 'probes': dict(it.probes),
@@ -763,6 +814,16 @@ def generate(prop, run_seed, tier='quick', tolerate=frozenset()):
                 'ops': ops, 'scripts': scripts}
     cfg = {'in_world': crng.random() < .33, 'coros': coros}
     life = prop == 'C09'
+    if life and nc >= 2 and crng.random() < .1:
+        # guards: coroutines with clean-up code (try/finally) that kills or
+        # starts another coroutine when the guard goes away
+        for g in crng.sample(range(nc), crng.choice([1, 1, 2])):
+            v = crng.choice([x for x in range(nc) if x != g])
+            coros[g]['fin'] = crng.choice([
+                [['kill', v]], [['start', v]], [['kill', v], ['start', v]],
+                [['kill', v]]])
+            if crng.random() < .6:
+                coros[g]['yields'] = ['N'] * crng.randint(3, 8)
     w = dict(frame=6, start=2, kill=.4, pkill=.1, state=.3, pstate=.1,
              value=.2, bad=.05, dstart=.2, pause_resume=0, handoff=0)
     if life:
